@@ -45,7 +45,10 @@ static int rt_read_csv(const char *path, rt_csv_t *t, int skip_header) {
             break;
         }
         line++;
-        if (skip_header && line == 1) continue;
+        /* line 1 is the title line "Domain","Type","TLD Manager" - but only if it IS one: a first line whose second field is an IANA type is a data
+         * row like any other (a CSV exported without its title line must not lose its first TLD) */
+        if (skip_header && line == 1 && !(nf >= 3 && (!strcmp(fld[1], "generic") || !strcmp(fld[1], "country-code") || !strcmp(fld[1], "sponsored") ||
+            !strcmp(fld[1], "infrastructure") || !strcmp(fld[1], "generic-restricted") || !strcmp(fld[1], "test")))) continue;
         if (nf == 1 && fld[0][0] == 0) continue;
         if (nf < 3) { fprintf(stderr, "%s:%d: %d fields\n", path, line, nf); return -1; }
         if (t->n >= cap) { cap *= 2; t->row = realloc(t->row, (size_t)cap * sizeof *t->row); }
